@@ -305,6 +305,7 @@ func C18(run *report.Run) {
 			}
 		}
 	}
+	c18Schedules(run, acc)
 	acc.flush(run)
 	run.Evals = st.evals + st.faults
 	run.Distinct = st.evals + st.faults
